@@ -233,10 +233,33 @@ def r2_position_discipline(rep, src):
             if isinstance(test, ast.BoolOp):
                 rs = [entailed(v, facts, tr) for v in test.values]
                 return any(rs) if isinstance(test.op, ast.Or) else all(rs)
-            if isinstance(test, ast.Compare) and len(test.ops) == 1:
-                la, ra = tr.aff(test.left), tr.aff(test.comparators[0])
-                cs = cmp_to_constraints(la, test.ops[0], ra) if la is not None and ra is not None else None
-                return bool(cs) and all(facts.entails(c) for c in cs)
+            if isinstance(test, ast.UnaryOp) and isinstance(test.op, ast.Not):
+                return refuted(test.operand, facts, tr)
+            if isinstance(test, ast.Compare):
+                # a chain is the conjunction of its links
+                terms = [test.left] + list(test.comparators)
+                for l_, op, r_ in zip(terms, test.ops, terms[1:]):
+                    la, ra = tr.aff(l_), tr.aff(r_)
+                    cs = cmp_to_constraints(la, op, ra) if la is not None and ra is not None else None
+                    if not (bool(cs) and all(facts.entails(c) for c in cs)):
+                        return False
+                return True
+            return False
+
+        NEG = {ast.Lt: ast.GtE, ast.LtE: ast.Gt, ast.Gt: ast.LtE, ast.GtE: ast.Lt}
+
+        def refuted(test, facts, tr):
+            # false whenever the facts hold
+            if isinstance(test, ast.BoolOp):
+                rs = [refuted(v, facts, tr) for v in test.values]
+                return all(rs) if isinstance(test.op, ast.Or) else any(rs)
+            if isinstance(test, ast.UnaryOp) and isinstance(test.op, ast.Not):
+                return entailed(test.operand, facts, tr)
+            if isinstance(test, ast.Compare):
+                terms = [test.left] + list(test.comparators)
+                for l_, op, r_ in zip(terms, test.ops, terms[1:]):
+                    if type(op) in NEG and entailed(ast.Compare(left=l_, ops=[NEG[type(op)]()], comparators=[r_]), facts, tr):
+                        return True
             return False
         tr0 = Translator()
         at_end = Facts([tr0.aff(ast.parse('self.__cur - self.__end', mode='eval').body)])
@@ -253,8 +276,21 @@ def r2_position_discipline(rep, src):
     # readlines is built on the bounded readline and stops at the first empty result
     f = src.func('%s:ArMember.readlines' % M)
     rep.saw_func(f)
-    rl = [c for c in ast.walk(f.node) if isinstance(c, ast.Attribute) and norm(c) == 'self.readline']     # called, or handed to iter(f, sentinel)
-    raw = [c for c in fp_calls(f.node) if c.func.attr in DATA_CALLS]
+    # (the function and the helpers of the class it calls, transitively)
+    nodes, todo = [], [f]
+    while todo:
+        g_ = todo.pop()
+        if any(g_ is x for x in nodes):
+            continue
+        nodes.append(g_)
+        for c in ast.walk(g_.node):
+            if isinstance(c, ast.Call) and isinstance(c.func, ast.Attribute) and norm(c.func.value) == 'self' and c.func.attr not in ('readline', 'read'):
+                h = f.module.funcs.get('ArMember.' + c.func.attr)
+                if h is not None:
+                    rep.saw_func(h)
+                    todo.append(h)
+    rl = [c for g_ in nodes for c in ast.walk(g_.node) if isinstance(c, ast.Attribute) and norm(c) == 'self.readline']     # called, or handed to iter(f, sentinel)
+    raw = [c for g_ in nodes for c in fp_calls(g_.node) if c.func.attr in DATA_CALLS]
     if rl and not raw:
         rep.ok('C06.R2', f.site, 'readlines uses the member readline', 'loop over self.readline()', nontrivial=False)
     elif raw:
